@@ -20,9 +20,15 @@ MANIFEST = {
             "order or the declaration order; sticky components keep their value until the next qualifying event and "
             "non-sticky ones return to zero; totals are sums of step rewards. Tie: Gen/Reward.lean regenerated from "
             "rewards.py / game.py / science.py + differential rig R-rew through the real PrimaiteGame.from_config "
-            "(every sharing graph on <= 4 agents), real update_agents on synthetic states, and real PrimaiteGymEnv runs.",
-    "note": "C10-specific: floats are modelled as exact rationals (rig uses dyadic values); the simulation state is abstracted to "
-            "the keys the components read.",
+            "(every sharing graph on <= 4 agents; agents with two or more shared-reward components, cycles through any of them), "
+            "real update_agents on synthetic states, and real PrimaiteGymEnv / PrimaiteGame runs on the shipped and on generated "
+            "scenarios. The graph handed to graph_has_cycle is compared with the declared shares on every load; a Python step "
+            "oracle (component taps) checks same-step shared values and the weighted sum on the implementation alone.",
+    "note": "C10-specific: the theorems are about exact rational arithmetic (and, for the weighted sum, any associative arithmetic "
+            "with a zero). The rig compares exactly where float arithmetic is exact (dyadic families) and otherwise (decimal weights "
+            "such as 0.4 / 0.05, shipped scenarios as they are) gives the model the exact value of every double and requires the "
+            "implementation's floats to lie within an accumulated forward rounding bound (2^-53 per operation). The simulation state "
+            "is abstracted to the keys the components read.",
     "technique": "Lean 4 theorems over executable models of the graph functions and the reward layer; model tied by "
                  "regenerated tables and a differential rig",
     "design_ref": "5/C10",
@@ -305,6 +311,18 @@ def run(ctx: Ctx):
         ctx.count("family:" + fam)
         if case["family"] == "env":
             case = dict(case, **capture["observed"])  # what the real run produced: agents, per-step states and items
+        if case["family"] == "env":
+            ctx.count("env-source:" + case.get("source", "uc2").split(":")[0] + ":" + case.get("weights", "dyadic"))
+            for stp in case["steps"]:  # what the real describe_state() showed the components
+                for _n, _s, codes, _f in stp["state"]["services"]:
+                    ctx.count("env-state:web-server codes " + ("none" if not codes else ("all-200" if set(codes) == {200} else "some-not-200")))
+                for _n, hist in stp["state"]["browsers"]:
+                    ctx.count("env-state:browser last outcome " + (hist[-1] if hist else "empty"))
+                for _n, _fo, _fi, h in stp["state"]["files"]:
+                    ctx.count("env-state:file health %d" % h)
+                for it in stp["items"].values():
+                    if len(it["request"]) == 6 and it["request"][3] == "application" and it["request"][5] == "execute":
+                        ctx.count("env-item:%s execute %s" % (it["request"][4], it["status"]))
         if case["family"] in ("game", "env"):
             _share_coverage(ctx, case)
             ctx.count("compare:" + ("exact" if case.get("exact", True) else "within-rounding-bound"))
